@@ -160,9 +160,9 @@ GhostStep(gg, r, pre, obs, ran) ==
         g1 == IF r.ev = "SrvFrame" THEN [gg EXCEPT !.sentAtRest = sentNow] ELSE gg
         g2 == IF r.ev = "SrvFrame" /\ ran THEN P!GhostSnap(P!GhostMaps(g1, pre, obs), obs) ELSE g1
         g3 == IF r.ev = "SetVis" THEN P!GhostSetVis(g2, r.args.c, r.args.e, r.args.v) ELSE g2
-        g4 == IF r.ev = "Connect" THEN [g3 EXCEPT !.lastSet[r.args.c] = <<>>, !.mapsSent[r.args.c] = {}] ELSE g3
+        g4 == IF r.ev = "Connect" THEN [g3 EXCEPT !.lastSet[r.args.c] = <<>>, !.mapsSent[r.args.c] = {}, !.onceSent[r.args.c] = {}] ELSE g3
         \* a restarted server counts its ticks from 0 again: the snapshots of the old run are void
-        g5 == IF r.ev = "Stop" THEN [g4 EXCEPT !.snap = <<>>, !.visAt = <<>>] ELSE g4
+        g5 == IF r.ev = "Stop" THEN [g4 EXCEPT !.snap = <<>>, !.visAt = <<>>, !.onceSent = [c \in Clients |-> {}]] ELSE g4
     IN g5
 
 ----------------------------------------------------------------------------
